@@ -46,6 +46,30 @@ static void put_m(FILE *f, char const *name, double const *v, int n)
     put_dyadics(f, v, n);
 }
 
+/* the same matrix scaled by 2^s (exact): the factorization must still succeed and the log-determinant must move by
+   exactly n*s*ln 2, also where the determinant itself is far outside the floating-point range */
+static void put_scaled(FILE *f, int kind, int n, double const *A)
+{
+    static int const sh[] = {400, -400};
+    double B[25];
+    a_uint p[5];
+    int sign;
+    fputs(",\"scaled\":[", f);
+    for (int k = 0; k < 2; ++k)
+    {
+        int rc;
+        double ln = 0;
+        for (int i = 0; i < n * n; ++i) { B[i] = ldexp(A[i], sh[k]); }
+        if (kind <= 2) { rc = a_real_plu((a_uint)n, B, p, &sign); if (rc == 0) { ln = a_real_plu_lndet((a_uint)n, B); } }
+        else if (kind <= 4) { rc = a_real_ldl((a_uint)n, B); if (rc == 0) { ln = a_real_ldl_lndet((a_uint)n, B); } }
+        else { rc = a_real_llt((a_uint)n, B); if (rc == 0) { ln = a_real_llt_lndet((a_uint)n, B); } }
+        fprintf(f, "%s{\"rc\":%d,\"l2\":", k ? "," : "", rc);
+        put_value(f, ln / 0.69314718055994530942 - (double)n * sh[k]);
+        fputc('}', f);
+    }
+    fputc(']', f);
+}
+
 int main(int argc, char **argv)
 {
     if (argc < 4) { fprintf(stderr, "usage: %s <tlc-output> <out-prefix> <batches>\n", argv[0]); return 2; }
@@ -110,6 +134,8 @@ int main(int argc, char **argv)
                 put_dyadic(f, a_real_plu_det((a_uint)n, W, sign));
                 fprintf(f, ",\"sgndet\":%d,\"lndet2\":", a_real_plu_sgndet((a_uint)n, W, sign));
                 put_dyadic(f, a_real_plu_lndet((a_uint)n, W) / 0.69314718055994530942);
+                fputs(",\"lnd\":", f); put_value(f, a_real_plu_lndet((a_uint)n, W) / 0.69314718055994530942);
+                put_scaled(f, kind, n, A);
             }
         }
         else if (kind <= 4)
@@ -133,6 +159,8 @@ int main(int argc, char **argv)
                 put_dyadic(f, a_real_ldl_det((a_uint)n, W));
                 fprintf(f, ",\"sgndet\":%d,\"lndet2\":", a_real_ldl_sgndet((a_uint)n, W));
                 put_dyadic(f, a_real_ldl_lndet((a_uint)n, W) / 0.69314718055994530942);
+                fputs(",\"lnd\":", f); put_value(f, a_real_ldl_lndet((a_uint)n, W) / 0.69314718055994530942);
+                put_scaled(f, kind, n, A);
             }
         }
         else
@@ -154,6 +182,8 @@ int main(int argc, char **argv)
                 put_dyadic(f, a_real_llt_det((a_uint)n, W));
                 fputs(",\"lndet2\":", f);
                 put_dyadic(f, a_real_llt_lndet((a_uint)n, W) / 0.69314718055994530942);
+                fputs(",\"lnd\":", f); put_value(f, a_real_llt_lndet((a_uint)n, W) / 0.69314718055994530942);
+                put_scaled(f, kind, n, A);
             }
         }
         fputs("}\n", f);
